@@ -97,7 +97,7 @@ enum Unit {
     Table(String),
     /// character classes: context index, first character index
     Chars(usize, usize),
-    Deep { open: String, close: String, depth: usize, closed: bool, widths: Vec<usize> },
+    Deep { open: String, close: String, depth: usize, closed: bool, widths: Vec<usize>, lead: String },
 }
 struct S {
     tier: Tier,
@@ -214,8 +214,9 @@ impl Scope for S {
                     check_one(doc, w, &Cfg::new(Dec::Custom(DecParams::ascii())).with(Opt::Raw), false, cx);
                 }
             }
-            Unit::Deep { open, close, depth, closed, widths } => {
-                let mut doc = String::with_capacity((open.len() + close.len()) * depth + 8);
+            Unit::Deep { open, close, depth, closed, widths, lead } => {
+                let mut doc = String::with_capacity((open.len() + close.len()) * depth + 8 + lead.len());
+                doc.push_str(lead);
                 for _ in 0..*depth {
                     doc.push_str(open);
                 }
@@ -242,7 +243,7 @@ impl Scope for S {
     fn info(&self) -> Info {
         let count = |f: &dyn Fn(&Unit) -> bool| self.units.iter().filter(|u| f(u)).count();
         Info {
-            rule: "A token soup: every sequence of <= 2 items over the 84-token markup alphabet (deviation <= 2 for single tokens, <= 1 for pairs) and of 3 (thorough: 4) items over the 26-token alphabet; B raw bytes: all strings of length <= 2 over all 256 byte values, 3 over 24, 4 over 12, <= 6 over 6; C numeric attributes: colspan/start from 18 extreme or malformed values on 5 table/list shapes; D every single-byte edit of the small documents and seeds; E deep nesting of 20 elements and 6 element cycles, closed and unclosed; F a slice of the regular-table universe, and every table of shapes 1x2..3x2 with empty / one-character cells, at widths 1..9; G every string c, ac, ca, cd, acdb over 40 representatives of Unicode character classes (non-ASCII numerics and white space, width 0/1/2, controls, format characters, supplementary plane) in 22 text and attribute contexts (sup, s, pre, href, alt, li, ol start, colspan, style, class, id, ...); x widths {0,1,2,3,5,8,9,17,40,200,1e5,usize::MAX} x {plain, plain_no_decorate, rich, trivial, custom ASCII} x deviation-bounded configurations; non-trivial = the input was rendered (Ok)".into(),
+            rule: "A token soup: every sequence of <= 2 items over the 84-token markup alphabet (deviation <= 2 for single tokens, <= 1 for pairs) and of 3 (thorough: 4) items over the 26-token alphabet; B raw bytes: all strings of length <= 2 over all 256 byte values, 3 over 24, 4 over 12, <= 6 over 6; C numeric attributes: colspan/start from 18 extreme or malformed values on 5 table/list shapes; D every single-byte edit of the small documents and seeds; E deep nesting of 20 elements and 6 element cycles, closed and unclosed, plus depth-4e4 chains of <sup> (thorough: depth 1e5, 6 elements) in positions where the subtree is discarded unrendered (non-item child of <ol>; pending siblings when TooNarrow aborts); F a slice of the regular-table universe, and every table of shapes 1x2..3x2 with empty / one-character cells, at widths 1..9; G every string c, ac, ca, cd, acdb over 40 representatives of Unicode character classes (non-ASCII numerics and white space, width 0/1/2, controls, format characters, supplementary plane) in 22 text and attribute contexts (sup, s, pre, href, alt, li, ol start, colspan, style, class, id, ...); x widths {0,1,2,3,5,8,9,17,40,200,1e5,usize::MAX} x {plain, plain_no_decorate, rich, trivial, custom ASCII} x deviation-bounded configurations; non-trivial = the input was rendered (Ok)".into(),
             bounds: json!({"soup_units": count(&|u| matches!(u, Unit::Soup{..})), "byte_units": count(&|u| matches!(u, Unit::Bytes{..})), "numeric_documents": count(&|u| matches!(u, Unit::Numeric(_))), "corrupted_documents": count(&|u| matches!(u, Unit::Corrupt(_))), "deep_nesting_cases": count(&|u| matches!(u, Unit::Deep{..})), "char_class_units": count(&|u| matches!(u, Unit::Chars(..))), "table_documents": count(&|u| matches!(u, Unit::Table(_))),
                 "widths": WIDTHS.iter().map(|w| w.to_string()).collect::<Vec<_>>(), "deep_nesting_depths": self.tier.pick(vec![1000, 10000], vec![1000, 10000, 100000]), "tier": self.tier.name()}),
             assumptions: vec!["'never hangs' is decided up to the watchdog (20 s per call; 60 s + 10 s x (depth/1e4)^2 for deep nesting)".into(), "stack safety is checked for the default 8 MiB main-thread stack of the worker processes".into(), "pad_block_width only with widths <= 1e5, as the property states".into()],
@@ -261,24 +262,31 @@ impl Prop for P {
             for closed in [true, false] {
                 for tag in NESTABLE {
                     let open = if tag == "a" { "<a href=u>".to_string() } else { format!("<{tag}>") };
-                    units.push(Unit::Deep { open, close: format!("</{tag}>"), depth, closed, widths: vec![1, 80, usize::MAX] });
+                    units.push(Unit::Deep { open, close: format!("</{tag}>"), depth, closed, widths: vec![1, 80, usize::MAX], lead: String::new() });
                 }
                 for (o, c) in CYCLES {
-                    units.push(Unit::Deep { open: o.to_string(), close: c.to_string(), depth, closed, widths: vec![1, 80, usize::MAX] });
+                    units.push(Unit::Deep { open: o.to_string(), close: c.to_string(), depth, closed, widths: vec![1, 80, usize::MAX], lead: String::new() });
                 }
             }
         }
+        // deep subtrees that are *discarded* instead of rendered: a child of <ol> that is not an item
+        // (dropped when the render tree is built), and siblings still pending when TooNarrow aborts
+        for tag in tier.pick(vec!["sup"], vec!["sup", "div", "span", "li", "td", "blockquote"]) {
+            let d = tier.pick(40_000, 100_000);
+            units.push(Unit::Deep { open: format!("<{tag}>"), close: format!("</{tag}>"), depth: d, closed: false, widths: vec![80], lead: "<ol><li>one</li>".into() });
+            units.push(Unit::Deep { open: format!("<{tag}>"), close: format!("</{tag}>"), depth: d, closed: false, widths: vec![1], lead: "<ul><li>a</li></ul><p>".into() });
+        }
         if tier == Tier::Quick {
             for tag in ["div", "ul", "table", "blockquote", "em", "pre", "ol", "dl"] {
-                units.push(Unit::Deep { open: format!("<{tag}>"), close: format!("</{tag}>"), depth: 10_000, closed: tag != "ul", widths: vec![80] });
+                units.push(Unit::Deep { open: format!("<{tag}>"), close: format!("</{tag}>"), depth: 10_000, closed: tag != "ul", widths: vec![80], lead: String::new() });
             }
         } else {
             for tag in NESTABLE {
                 let open = if tag == "a" { "<a href=u>".to_string() } else { format!("<{tag}>") };
-                units.push(Unit::Deep { open, close: format!("</{tag}>"), depth: 100_000, closed: false, widths: vec![80, usize::MAX] });
+                units.push(Unit::Deep { open, close: format!("</{tag}>"), depth: 100_000, closed: false, widths: vec![80, usize::MAX], lead: String::new() });
             }
             for (o, c) in CYCLES {
-                units.push(Unit::Deep { open: o.to_string(), close: c.to_string(), depth: 100_000, closed: true, widths: vec![80] });
+                units.push(Unit::Deep { open: o.to_string(), close: c.to_string(), depth: 100_000, closed: true, widths: vec![80], lead: String::new() });
             }
         }
         // A
